@@ -586,3 +586,92 @@ def custom_table(u: Unit):
 
 
 STANDIN[r"custom\\.table"] = CUSTOM_REPLAY
+
+
+# ---- custom mode, PARALLEL path: convert_custom_data assigns to every parameter its own column(s) of the table ----------------------------
+PARCOL_REPLAY = lambda w: {"code": """
+import pandas as pd
+from pyxel.observation.misc import convert_custom_data
+VIOLATED, DETAIL = False, 'parameter j takes the table columns from the offset (sum of the widths before it) on'
+table = pd.DataFrame([[1, 2, 3, 4, 5, 6], [10, 20, 30, 40, 50, 60]])
+for layout, names, want in (([['_'], ['_', '_']], ['a', 'b'], {'a': [1, 10], 'b': [(2, 3), (20, 30)]}),
+                            ([['_', '_'], ['_']], ['a', 'b'], {'a': [(1, 2), (10, 20)], 'b': [3, 30]}),
+                            ([['_', '_', '_'], ['_'], ['_', '_']], ['a', 'b', 'c'], {'a': [(1, 2, 3), (10, 20, 30)], 'b': [4, 40], 'c': [(5, 6), (50, 60)]}),
+                            ([['_'], ['_', '_'], ['_']], ['a', 'b', 'c'], {'a': [1, 10], 'b': [(2, 3), (20, 30)], 'c': [4, 40]})):
+    got = convert_custom_data(custom_data=table, params_custom_list=layout, params_names=names)
+    g = {k: [tuple(v) if isinstance(v, (tuple, list)) else v for v in got[k].tolist()] for k in got.columns}
+    if g != want:
+        VIOLATED, DETAIL = True, f'layout {layout}: {g}, expected {want}'; break
+""", "expect": "convert_custom_data: a parameter after a multi-valued one starts at the column after ALL its columns"}
+
+
+@unit("C05", "custom.parallel_columns")
+def custom_parallel_columns(u: Unit):
+    """convert_custom_data (the table of the dask path of a custom-mode observation) for parameter layouts of widths 1..3: parameter j is
+    assigned column off(j) (width 1) or the columns off(j) .. off(j)+w_j-1 as row tuples, off(j) = w_0 + .. + w_(j-1) — the layout the
+    sequential path uses (unit custom.columns). pandas is the boundary (column selections are recorded)."""
+    fi = u.fn(f"{MISC}::convert_custom_data")
+    for layout in ([1], [1, 2], [2, 1], [3, 1, 2], [1, 2, 1], [2, 2, 1]):
+        cfg = Cfg("real")
+        rec = u.track({})
+
+        def t_attr(ex, obj, name, fr):
+            if name == "columns":
+                return VOpaque("tcolumns", None, {})
+            if name == "values":
+                return VOpaque("tvalues", None, {"of": obj})
+            if name == "tolist":
+                return VLib("tvalues.tolist", obj)
+            raise Unsupported(f"table.{name}")
+
+        def t_get(ex, obj, idx, fr):
+            cols = ex.try_list(idx)
+            if cols is None:
+                return VOpaque("tcol", None, {"column": idx})
+            return VOpaque("ctable", None, {"columns": list(cols)})
+
+        def tolist(ex, f, args, kwargs, fr):
+            src = f.self_val.info["of"]
+            rows = [VOpaque("trow", None, {"columns": src.info["columns"], "row": r}) for r in range(2)]
+            return ex.st.alloc(HList(rows))
+
+        def new_set(ex, obj, idx, val, fr, rec=rec):
+            rec.setdefault("assigned", []).append((idx, val))
+            return NONE
+        cfg.lib_overrides.update({("opaque_attr", "ctable"): t_attr, ("opaque_attr", "tvalues"): t_attr, ("getitem", "ctable"): t_get, "tvalues.tolist": tolist, ("len", "tcolumns"): lambda ex, v, fr: VInt(z3.Int("n_columns")),
+                                  "pandas.DataFrame": lambda ex, f, args, kwargs, fr: VOpaque("newtable", None, {}), ("setitem", "newtable"): new_set,
+                                  "builtins.tuple": lambda ex, f, args, kwargs, fr: args[0] if isinstance(args[0], VOpaque) and args[0].kind == "trow" else ex.lib.call(ex, f, args, kwargs, fr)})
+
+        def setup(ex, layout=layout, rec=rec):
+            rec.clear()
+            ex.st.assume(z3.Int("n_columns") >= sum(layout))
+            table = VOpaque("ctable", None, {"columns": None})
+            plist = ex.st.alloc(HList([ex.st.alloc(HList([VStr("_")] * w)) for w in layout]))
+            names = ex.st.alloc(HList([VStr(f"p{j}") for j in range(len(layout))]))
+            return [], {"custom_data": table, "params_custom_list": plist, "params_names": names}
+        ps = u.paths(fi, setup, cfg, label=f"convert_custom_data{layout}")
+        for p in ps:
+            if p.kind != "return":
+                u.oblige(p, f"custom.parallel_columns{layout}.returns", False, {"exc": p.exc_name()}, PARCOL_REPLAY)
+                continue
+            asg = rec.get("assigned", [])
+            ok = len(asg) == len(layout) and isinstance(p.value, VOpaque) and p.value.kind == "newtable"
+            off = 0
+            got = []
+            for j, w in enumerate(layout):
+                if not ok:
+                    break
+                name, val = asg[j]
+                ok = isinstance(name, VStr) and name.v == f"p{j}"
+                if w == 1:
+                    c = val.info.get("column") if isinstance(val, VOpaque) and val.kind == "tcol" else None
+                    got.append(getattr(c, "v", None))
+                    ok = ok and isinstance(c, VInt) and is_conc(c.v) and c.v == off
+                else:
+                    rows = p.ex.try_list(val) or []
+                    cols = [getattr(x, "v", None) for x in (rows[0].info["columns"] if rows and isinstance(rows[0], VOpaque) and rows[0].kind == "trow" else [])]
+                    got.append(cols)
+                    ok = ok and len(rows) == 2 and cols == list(range(off, off + w)) and [r.info.get("row") for r in rows] == [0, 1]
+                off += w
+            u.oblige(p, f"custom.parallel_columns{layout}", bool(ok), {"widths": str(layout), "columns taken": str(got)}, PARCOL_REPLAY)
+        u.cover(f"custom.parallel_columns.cover{layout}", ps, lambda p: p.kind == "return")
